@@ -1,4 +1,345 @@
+//! C20: one `Arc<ModelEvaluator>` per model shared by N threads; every result compared with the
+//! sequential result of the same (invocable, input); a logical clock orders the recorded call events;
+//! the model-evaluator verification hook is used to (a) inject seeded yields / spins between lock
+//! acquisitions, (b) hold K evaluations inside the evaluator at once (rendezvous) and (c) detect
+//! cross-talk: every call carries a unique tag entry in its input context and the hook payload of a
+//! call must never show another call's tag.
+
+use crate::vj;
+use dmntk_feel::context::FeelContext;
+use dmntk_model_evaluator::ModelEvaluator;
 use serde_json::{json, Value as J};
-pub fn op_threads(_case: &J) -> J {
-  json!({"harness_error": "not implemented"})
+use std::cell::{Cell, RefCell};
+use std::sync::atomic::{AtomicU64, AtomicUsize, Ordering};
+use std::sync::{Arc, Barrier, Mutex, OnceLock};
+use std::time::{Duration, Instant};
+
+const MODE_OFF: usize = 0;
+const MODE_YIELD: usize = 1;
+const MODE_RENDEZVOUS: usize = 2;
+
+struct HookState {
+  mode: AtomicUsize,
+  inside: AtomicUsize,
+  max_inside: AtomicUsize,
+  want: AtomicUsize,
+  seed: AtomicU64,
+  counter: AtomicU64,
+  hook_events: AtomicU64,
+  gate_timeouts: AtomicUsize,
+  gate_timeout_ms: AtomicU64,
+  crosstalk: Mutex<Vec<String>>,
+}
+
+static STATE: OnceLock<HookState> = OnceLock::new();
+
+thread_local! {
+  static GATED: Cell<bool> = Cell::new(false);
+  static MY_TAG: RefCell<String> = RefCell::new(String::new());
+}
+
+const TAG_NAME: &str = "verif call tag";
+
+fn state() -> &'static HookState {
+  STATE.get_or_init(|| HookState {
+    mode: AtomicUsize::new(MODE_OFF),
+    inside: AtomicUsize::new(0),
+    max_inside: AtomicUsize::new(0),
+    want: AtomicUsize::new(0),
+    seed: AtomicU64::new(1),
+    counter: AtomicU64::new(0),
+    hook_events: AtomicU64::new(0),
+    gate_timeouts: AtomicUsize::new(0),
+    gate_timeout_ms: AtomicU64::new(20_000),
+    crosstalk: Mutex::new(vec![]),
+  })
+}
+
+fn mix(mut x: u64) -> u64 {
+  x ^= x >> 33;
+  x = x.wrapping_mul(0xff51afd7ed558ccd);
+  x ^= x >> 33;
+  x = x.wrapping_mul(0xc4ceb9fe1a85ec53);
+  x ^= x >> 33;
+  x
+}
+
+#[cfg(dmntk_verif)]
+fn install_hook() -> bool {
+  static INSTALLED: OnceLock<bool> = OnceLock::new();
+  *INSTALLED.get_or_init(|| {
+    let _ = state();
+    dmntk_model_evaluator::verif::set_callback(Box::new(|point: &'static str, id: &str, input: &FeelContext| {
+      let st = state();
+      st.hook_events.fetch_add(1, Ordering::Relaxed);
+      // cross-talk: the payload must not carry another call's tag
+      MY_TAG.with(|tag| {
+        let tag = tag.borrow();
+        if !tag.is_empty() {
+          if let Some(dmntk_feel::values::Value::String(seen)) = input.get_entry(&dmntk_feel::Name::from(TAG_NAME)) {
+            if *seen != *tag {
+              if let Ok(mut g) = st.crosstalk.lock() {
+                if g.len() < 20 {
+                  g.push(format!("hook {} of {} in call {} saw the input of call {}", point, id, tag, seen));
+                }
+              }
+            }
+          }
+        }
+      });
+      let mode = st.mode.load(Ordering::SeqCst);
+      if mode == MODE_OFF {
+        return;
+      }
+      let first = GATED.with(|g| {
+        let was = g.get();
+        g.set(true);
+        !was
+      });
+      if first {
+        let now = st.inside.fetch_add(1, Ordering::SeqCst) + 1;
+        st.max_inside.fetch_max(now, Ordering::SeqCst);
+      }
+      if mode == MODE_YIELD {
+        // seeded delays between lock acquisitions (where the scheduler could really switch)
+        let n = st.counter.fetch_add(1, Ordering::Relaxed);
+        let r = mix(n ^ st.seed.load(Ordering::Relaxed));
+        match r % 8 {
+          0 | 1 => std::thread::yield_now(),
+          2 => {
+            for _ in 0..(r >> 8) % 2000 {
+              std::hint::spin_loop();
+            }
+          }
+          3 => std::thread::sleep(Duration::from_micros((r >> 16) % 200)),
+          _ => {}
+        }
+      } else if mode == MODE_RENDEZVOUS && first {
+        let want = st.want.load(Ordering::SeqCst);
+        let deadline = Instant::now() + Duration::from_millis(st.gate_timeout_ms.load(Ordering::Relaxed));
+        while st.max_inside.load(Ordering::SeqCst) < want {
+          if Instant::now() > deadline {
+            st.gate_timeouts.fetch_add(1, Ordering::SeqCst);
+            break;
+          }
+          std::thread::yield_now();
+        }
+      }
+    }))
+  })
+}
+
+#[cfg(not(dmntk_verif))]
+fn install_hook() -> bool {
+  false
+}
+
+fn call_end() {
+  let was = GATED.with(|g| {
+    let w = g.get();
+    g.set(false);
+    w
+  });
+  if was {
+    state().inside.fetch_sub(1, Ordering::SeqCst);
+  }
+}
+
+struct Call {
+  model: usize,
+  invocable: String,
+  input: FeelContext,
+}
+
+fn tagged(input: &FeelContext, tag: &str) -> FeelContext {
+  let mut c = input.clone();
+  c.set_entry(&dmntk_feel::Name::from(TAG_NAME), dmntk_feel::values::Value::String(tag.to_string()));
+  c
+}
+
+/// {op:"threads", models:[xml..], calls:[[model index, invocable, ctx-entries],..], threads:N, per_thread:R, seed, rendezvous:K, reps}
+pub fn op_threads(case: &J) -> J {
+  let hook = install_hook();
+  let st = state();
+  let empty = vec![];
+  let mut evaluators: Vec<Arc<ModelEvaluator>> = vec![];
+  for m in case.get("models").and_then(|v| v.as_array()).unwrap_or(&empty) {
+    let xml = m.as_str().unwrap_or("");
+    let defs = match dmntk_model::parse(xml) {
+      Ok(d) => d,
+      Err(e) => return json!({"harness_error": format!("model does not parse: {}", e)}),
+    };
+    match ModelEvaluator::new(&defs) {
+      Ok(e) => evaluators.push(e),
+      Err(e) => return json!({"harness_error": format!("model does not build: {}", e)}),
+    }
+  }
+  let mut calls: Vec<Call> = vec![];
+  for c in case.get("calls").and_then(|v| v.as_array()).unwrap_or(&empty) {
+    let model = c.get(0).and_then(|v| v.as_u64()).unwrap_or(0) as usize;
+    let invocable = c.get(1).and_then(|v| v.as_str()).unwrap_or("").to_string();
+    let input = match c.get(2).and_then(|v| v.as_array()).map(|a| vj::to_context(a)) {
+      Some(Ok(x)) => x,
+      _ => return json!({"harness_error": "bad call input"}),
+    };
+    if model >= evaluators.len() {
+      return json!({"harness_error": "bad model index"});
+    }
+    calls.push(Call { model, invocable, input });
+  }
+  if calls.is_empty() {
+    return json!({"harness_error": "no calls"});
+  }
+  let n_threads = case.get("threads").and_then(|v| v.as_u64()).unwrap_or(4) as usize;
+  let per_thread = case.get("per_thread").and_then(|v| v.as_u64()).unwrap_or(100) as usize;
+  let seed = case.get("seed").and_then(|v| v.as_u64()).unwrap_or(1);
+  let rendezvous = case.get("rendezvous").and_then(|v| v.as_u64()).unwrap_or(0) as usize;
+  st.gate_timeout_ms.store(case.get("gate_timeout_ms").and_then(|v| v.as_u64()).unwrap_or(20_000), Ordering::Relaxed);
+  // ---- sequential pass: expected values ----
+  st.mode.store(MODE_OFF, Ordering::SeqCst);
+  let mut expected: Vec<String> = vec![];
+  for c in &calls {
+    let v = evaluators[c.model].evaluate_invocable(&c.invocable, &tagged(&c.input, "sequential"));
+    expected.push(vj::from_value(&v).to_string());
+  }
+  let non_null = expected.iter().filter(|e| e.as_str() != "null").count();
+  let calls = Arc::new(calls);
+  let expected = Arc::new(expected);
+  let evaluators = Arc::new(evaluators);
+  let clock = Arc::new(AtomicU64::new(0));
+  // ---- phase A: free run with seeded yields ----
+  st.seed.store(seed, Ordering::SeqCst);
+  st.inside.store(0, Ordering::SeqCst);
+  st.max_inside.store(0, Ordering::SeqCst);
+  st.mode.store(if hook { MODE_YIELD } else { MODE_OFF }, Ordering::SeqCst);
+  let barrier = Arc::new(Barrier::new(n_threads));
+  let mut handles = vec![];
+  for t in 0..n_threads {
+    let (calls, expected, evaluators, clock, barrier) = (calls.clone(), expected.clone(), evaluators.clone(), clock.clone(), barrier.clone());
+    handles.push(
+      std::thread::Builder::new()
+        .name(format!("c20-{}", t))
+        .stack_size(8 * 1024 * 1024)
+        .spawn(move || {
+          let mut events: Vec<(usize, usize, u64, u64, bool)> = vec![];
+          let mut mismatches: Vec<J> = vec![];
+          let mut x = mix(seed ^ ((t as u64 + 1) << 32));
+          barrier.wait();
+          for k in 0..per_thread {
+            x = mix(x.wrapping_add(k as u64));
+            let idx = (x % calls.len() as u64) as usize;
+            let c = &calls[idx];
+            let tag = format!("T{}C{}", t, k);
+            MY_TAG.with(|m| *m.borrow_mut() = tag.clone());
+            let input = tagged(&c.input, &tag);
+            let b = clock.fetch_add(1, Ordering::SeqCst);
+            let v = evaluators[c.model].evaluate_invocable(&c.invocable, &input);
+            let e = clock.fetch_add(1, Ordering::SeqCst);
+            call_end();
+            let got = vj::from_value(&v).to_string();
+            let ok = got == expected[idx];
+            if !ok && mismatches.len() < 5 {
+              mismatches.push(json!({"thread": t, "call": k, "index": idx, "invocable": c.invocable, "expected": expected[idx], "observed": got}));
+            }
+            events.push((t, idx, b, e, ok));
+          }
+          MY_TAG.with(|m| m.borrow_mut().clear());
+          (events, mismatches)
+        })
+        .expect("spawn"),
+    );
+  }
+  let mut events = vec![];
+  let mut mismatches = vec![];
+  let mut thread_panics = 0;
+  for h in handles {
+    match h.join() {
+      Ok((e, m)) => {
+        events.extend(e);
+        mismatches.extend(m);
+      }
+      Err(_) => thread_panics += 1,
+    }
+  }
+  let max_inside_free = st.max_inside.load(Ordering::SeqCst);
+  // overlap analysis on the logical clock
+  events.sort_by_key(|e| e.2);
+  let mut overlapping_pairs = 0u64;
+  let mut max_overlap = 0usize;
+  let mut active: Vec<(usize, u64)> = vec![]; // (thread, end)
+  let mut order_sig = 0u64;
+  for ev in &events {
+    active.retain(|a| a.1 > ev.2);
+    overlapping_pairs += active.iter().filter(|a| a.0 != ev.0).count() as u64;
+    active.push((ev.0, ev.3));
+    max_overlap = max_overlap.max(active.len());
+    order_sig = mix(order_sig ^ (ev.0 as u64 + 1).wrapping_mul(0x9e3779b97f4a7c15) ^ (ev.1 as u64) << 20);
+  }
+  // ---- phase B: rendezvous: K evaluations inside the evaluator at the same time ----
+  let mut rendezvous_result = json!(null);
+  if rendezvous > 1 && hook {
+    let mut rounds = vec![];
+    for round in 0..3usize {
+      st.inside.store(0, Ordering::SeqCst);
+      st.max_inside.store(0, Ordering::SeqCst);
+      st.want.store(rendezvous, Ordering::SeqCst);
+      st.gate_timeouts.store(0, Ordering::SeqCst);
+      st.mode.store(MODE_RENDEZVOUS, Ordering::SeqCst);
+      let barrier = Arc::new(Barrier::new(rendezvous));
+      let mut hs = vec![];
+      let started = Instant::now();
+      for t in 0..rendezvous {
+        let (calls, expected, evaluators, barrier) = (calls.clone(), expected.clone(), evaluators.clone(), barrier.clone());
+        hs.push(
+          std::thread::Builder::new()
+            .stack_size(8 * 1024 * 1024)
+            .spawn(move || {
+              let idx = (mix(seed ^ (round as u64) << 8 ^ t as u64) % calls.len() as u64) as usize;
+              let c = &calls[idx];
+              let tag = format!("R{}T{}", round, t);
+              MY_TAG.with(|m| *m.borrow_mut() = tag.clone());
+              barrier.wait();
+              let v = evaluators[c.model].evaluate_invocable(&c.invocable, &tagged(&c.input, &tag));
+              call_end();
+              MY_TAG.with(|m| m.borrow_mut().clear());
+              vj::from_value(&v).to_string() == expected[idx]
+            })
+            .expect("spawn"),
+        );
+      }
+      let mut oks = 0;
+      for h in hs {
+        if let Ok(true) = h.join() {
+          oks += 1;
+        }
+      }
+      rounds.push(json!({"reached": st.max_inside.load(Ordering::SeqCst), "wanted": rendezvous, "gate_timeouts": st.gate_timeouts.load(Ordering::SeqCst), "results_ok": oks, "ms": started.elapsed().as_millis() as u64}));
+    }
+    rendezvous_result = json!(rounds);
+  }
+  st.mode.store(MODE_OFF, Ordering::SeqCst);
+  #[cfg(dmntk_verif)]
+  let poisoned: Vec<bool> = evaluators.iter().flat_map(|e| e.verif_poisoned().to_vec()).collect();
+  #[cfg(not(dmntk_verif))]
+  let poisoned: Vec<bool> = vec![];
+  let crosstalk = st.crosstalk.lock().map(|g| g.clone()).unwrap_or_default();
+  if let Ok(mut g) = st.crosstalk.lock() {
+    g.clear();
+  }
+  json!({
+    "hook_installed": hook,
+    "calls": events.len(),
+    "expected_non_null": non_null,
+    "mismatches": mismatches,
+    "mismatch_count": events.iter().filter(|e| !e.4).count(),
+    "thread_panics": thread_panics,
+    "overlapping_pairs": overlapping_pairs,
+    "max_overlap_logical": max_overlap,
+    "max_inside_hook": max_inside_free,
+    "order_signature": format!("{:016x}", order_sig),
+    "rendezvous": rendezvous_result,
+    "poisoned": poisoned.iter().any(|b| *b),
+    "crosstalk": crosstalk,
+    "hook_events": st.hook_events.load(Ordering::Relaxed),
+  })
 }
